@@ -35,6 +35,7 @@ type c04Job struct {
 	Restart string `json:"restart"` // "" | P1 | P2 | P3: this pair's thread restarts everything (loadTasks) before its second step
 	K       int    `json:"k"` // steps per pair thread in the explored phase
 	Batch   int    `json:"batch"`
+	Deep    bool   `json:"deep,omitempty"` // two deviations instead of one (thorough tier, two-pair jobs without restart)
 }
 
 type c04Case struct {
@@ -48,13 +49,14 @@ func init() {
 		ID:        "C04",
 		Level:     "model_checking",
 		Technique: "stateless model checking of the real pipeline (controlled scheduler over instrumented code, fake Postgres, two simulated nodes): all step-granular interleavings (plus preemption-bounded finer ones) of one thread per (source, integration) pair, one environment thread per source (growth + reorg) and a restart driver; oracle = frame condition on every commit diff (only rows and positions stamped with the acting pair may change), stamp of every inserted row, and per-pair projection of the pair's own canonical chain at quiescence",
-		Rule: "jobs = every subset of size 2 and 3 of {P1=(srcA,ig1), P2=(srcA,ig2), P3=(srcB,ig1)} (one shared table; srcA and srcB are different nodes with different chains) x declaration variant {same event, different events, same event with disjoint log_addr filters} x restart {no, yes} x steps per pair K=2 (thorough 3) x batch 1 (thorough also 2); " +
-			"per job every schedule with free switches at step boundaries and <= 1 other preemption (thorough 2); environment switches only at RPC points of the own node / step boundaries. Non-trivial = at least one row inserted by two different pairs or a reorg deletion committed; distinct = distinct (job, choice sequence).",
+		Rule: "jobs = every subset of size 2 and 3 of {P1=(srcA,ig1), P2=(srcA,ig2), P3=(srcB,ig1)} (one shared table; srcA and srcB are different nodes with different chains; every pair has indexed block 1 before the explored phase) x declaration variant {same event, different events, same event with disjoint log_addr filters} x restart {none, by P1 before its second step (thorough: by every pair, two-pair subsets)} x K=2 steps per pair (thorough also 3) with one reorg (longer replacement) per source; " +
+			"per job every schedule with free switches at the step boundaries of the first source's pairs and <= 1 preemption (thorough: 2 on the two-pair jobs without restart; three-pair jobs: quick 0, thorough 1); preemptive switches to a pair/environment thread only at RPC exchanges with its own node. Non-trivial = rows inserted by two different pairs or a reorg deletion committed; distinct = distinct (job, choice sequence).",
 		Assumptions: []string{
 			"fake Postgres (h/simpg) interprets the SQL shovel sends; simulated nodes (h/simeth) answer like well-behaved geth nodes",
 			"a commit is attributed to the pair whose harness thread issued it (goroutines spawned by a step belong to the step's thread)",
 			"a restart rebuilds ALL tasks (loadTasks, new source clients); a step already running on an old task finishes on it",
 			"after the explored phase every pair is stepped sequentially until it reports 'no new blocks' (number of integrations + 1) times in a row, horizon 4*head+8 steps",
+			"reductions: SQL statements of different pairs are not interleaved preemptively (only at step boundaries); the pair of the second source uses non-free step boundaries when both sources are present; in three-pair jobs the second source's reorg lands between that pair's two steps",
 		},
 		Budget:        map[string]time.Duration{"quick": 140 * time.Second, "thorough": 850 * time.Second},
 		MinNontrivial: 500,
@@ -66,22 +68,22 @@ func init() {
 
 func c04Jobs(thorough bool) []c04Job {
 	var jobs []c04Job
-	k := 2
-	if thorough {
-		k = 3
-	}
 	for _, ps := range []string{"12", "13", "23", "123"} {
 		for _, v := range []string{"same", "event", "addr"} {
 			if !strings.Contains(ps, "2") && v == "event" {
 				continue // ig2 absent: the variant only changes ig2
 			}
-			jobs = append(jobs, c04Job{Pairs: ps, Var: v, K: k, Batch: 1})
-			if thorough {
-				jobs = append(jobs, c04Job{Pairs: ps, Var: v, K: 2, Batch: 2})
+			jobs = append(jobs, c04Job{Pairs: ps, Var: v, K: 2, Batch: 1})
+			if thorough && len(ps) == 2 {
+				jobs = append(jobs, c04Job{Pairs: ps, Var: v, K: 2, Batch: 1, Deep: true})
+				jobs = append(jobs, c04Job{Pairs: ps, Var: v, K: 3, Batch: 1})
 			}
 			for i := 0; i < len(ps); i++ {
 				if !thorough && (i > 0 || v == "event" || ps == "123" || ps == "23" || (ps == "13" && v == "addr")) {
 					continue // quick: P1 restarts, on the two-pair subsets containing P1
+				}
+				if thorough && (len(ps) > 2 || v == "event") {
+					continue // thorough: every pair of every two-pair subset restarts
 				}
 				jobs = append(jobs, c04Job{Pairs: ps, Var: v, Restart: "P" + ps[i:i+1], K: 2, Batch: 1})
 			}
@@ -252,7 +254,7 @@ func c04Exec(j c04Job, p *c04Prep, ch vrt.Chooser, states *vrt.StateSet, trace b
 		}
 		return k
 	}
-	tag := j.Var + ":pairs=" + j.Pairs
+	tag := j.Var // declaration variant; the subset of pairs is in the job
 	pairByThread := map[string]*c04Pair{}
 	for i := range p.pairs {
 		pairByThread[p.pairs[i].name] = &p.pairs[i]
@@ -274,27 +276,7 @@ func c04Exec(j c04Job, p *c04Prep, ch vrt.Chooser, states *vrt.StateSet, trace b
 		for _, t := range tasks {
 			current[t.Key()] = t
 		}
-		// before the explored phase every pair indexes block 1 of its one-block chain and polls once more (nothing
-		// new); this also starts the clients' head pollers, which are parked before the explored phase
-		for _, t := range tasks {
-			for s := 0; ; s++ {
-				out, err := t.Step()
-				if out == "nothing" {
-					break
-				}
-				if out != "ok" || s > 3 {
-					w.HarnessErr = fmt.Sprintf("initial indexing of %s: %s %v", t.Key(), out, err)
-					return
-				}
-			}
-		}
-		w.V.WaitIdle()
-		for _, h := range p.hosts {
-			w.SetChain(h, p.init[h], "init")
-		}
 		cols := w.TableCols("t1")
-		g.open = true
-
 		// ---- frame condition and stamps on every commit
 		w.OnCommit = func(c world.Commit) {
 			if c.Ev.Kind != "commit" && c.Ev.Kind != "autocommit" || len(c.Ev.Changes) == 0 {
@@ -352,6 +334,35 @@ func c04Exec(j c04Job, p *c04Prep, ch vrt.Chooser, states *vrt.StateSet, trace b
 				}
 			}
 		}
+
+		// before the explored phase every pair indexes block 1 of its one-block chain and polls once more (nothing
+		// new); this also starts the clients' head pollers, which are parked before the explored phase
+		for _, t := range tasks {
+			for i := range p.pairs {
+				if p.pairs[i].src+"/"+p.pairs[i].ig == t.Key() {
+					acting = &p.pairs[i]
+				}
+			}
+			for s := 0; ; s++ {
+				out, err := t.Step()
+				if res.vio != nil {
+					return
+				}
+				if out == "nothing" {
+					break
+				}
+				if out != "ok" || s > 3 {
+					vio("setup", "initial-indexing:"+out+":"+errClass(err)+":"+tag, fmt.Sprintf("pair %s cannot index block 1 of its source (other pairs already did or will): %s %v", t.Key(), out, err))
+					return
+				}
+			}
+		}
+		acting = nil
+		w.V.WaitIdle()
+		for _, h := range p.hosts {
+			w.SetChain(h, p.init[h], "init")
+		}
+		g.open = true
 
 		// the head poller a (re)built client starts only ever waits for ticks nobody sends: its pending operation
 		// commutes with everything, so it is never switched to preemptively
@@ -413,7 +424,13 @@ func c04Exec(j c04Job, p *c04Prep, ch vrt.Chooser, states *vrt.StateSet, trace b
 					}
 					if trace {
 						cur, _ := w.Latest(pr.src, pr.ig)
-						res.steps = append(res.steps, fmt.Sprintf("%s (%s,%s) step: %s (%v) -> cursor %d", pr.name, pr.src, pr.ig, out, err, cur.Num))
+						nrows := 0
+						for _, r := range w.PG.Dump("t1") {
+							if strOf(r, "src_name") == pr.src && strOf(r, "ig_name") == pr.ig {
+								nrows++
+							}
+						}
+						res.steps = append(res.steps, fmt.Sprintf("%s (%s,%s) step: %s (%v) -> cursor %d, %d rows", pr.name, pr.src, pr.ig, out, err, cur.Num, nrows))
 					}
 					switch out {
 					case "panic":
@@ -521,6 +538,9 @@ func c04Exec(j c04Job, p *c04Prep, ch vrt.Chooser, states *vrt.StateSet, trace b
 			head := final.Head().Num
 			got := world.RenderDump(byPair[pr.src+"/"+pr.ig], cols)
 			want := world.RenderRows(pr.decl.Expect(final, pr.src, pr.chainID, 1, head, nil), cols)
+			if trace {
+				res.steps = append(res.steps, fmt.Sprintf("quiescence: pair (%s, %s) has %d rows, projection has %d", pr.src, pr.ig, len(got), len(want)))
+			}
 			if strings.Join(got, "\n") != strings.Join(want, "\n") {
 				sym := c04Symptom(p, pr, cols, got, want)
 				vio("rows", "rows:"+sym+":"+tag, fmt.Sprintf("at quiescence the rows stamped (%s, %s) != projection of %s's canonical chain (head %d) for %s\n%s", pr.src, pr.ig, pr.src, head, pr.ig, world.DiffSorted(got, want)))
@@ -642,13 +662,13 @@ func c04Symptom(p *c04Prep, pr *c04Pair, cols []string, got, want []string) stri
 func c04Bounds(thorough bool, j c04Job) explore.Bounds {
 	var b explore.Bounds
 	b[0], b[vrt.KPreempt] = 1, 1
-	if thorough {
+	if j.Deep {
 		b[0], b[vrt.KPreempt] = 2, 2
 	}
-	if len(j.Pairs) > 2 {
-		// three pairs: step-granular interleavings only (quick), one preemption (thorough); the finer
+	if len(j.Pairs) > 2 && !thorough {
+		// three pairs, quick: step-granular interleavings only (thorough: one preemption); the finer
 		// interleavings of every two of them are covered by the two-pair jobs
-		b[0], b[vrt.KPreempt] = b[0]-1, b[vrt.KPreempt]-1
+		b[0], b[vrt.KPreempt] = 0, 0
 	}
 	return b
 }
